@@ -251,6 +251,9 @@ def run_impl_sources(source, syntax, sources, world_kw=None):
             client = tuple(objs) if sources.get('client_tuple', True) \
                 else objs[0]
         mapping = b('mapping')
+        if sources.get('mapping_class'):
+            from vf.values import MAPPING_CLASSES
+            mapping = MAPPING_CLASSES[sources['mapping_class']](mapping)
         out = ('text', t(client, mapping, **b('kw')))
     except Exception as e:
         out = ('raise', e)
